@@ -374,3 +374,72 @@ Proof.
   destruct (fst (after m (fst (start_state m)) (snd (start_state m)) ins)) as [[[c a] q] st]. lia.
 Qed.
 End Bounded.
+
+(* ---- consequences of the specifications ---------------------------------------- *)
+Section SpecFacts.
+Context {A : Type}.
+
+(* every emitted element is an element of an inner sequence, emitted at that input's own
+   position: no element is invented, reordered or delayed *)
+Lemma mc_spec_sound mapper mc (ins : list (Z * inp A)) : forall ol cnt running queue pos p x,
+  In (p, Next x) (mc_spec mapper mc ol cnt running queue pos ins) ->
+  exists j now, nth_error ins (p - pos) = Some (now, ISrc (S j) (Next x)) /\ (pos <= p)%nat.
+Proof.
+  induction ins as [|[now i] rest IH]; intros ol cnt running queue pos p x Hin; [destruct Hin|].
+  cbn [mc_spec] in Hin.
+  assert (Shift : forall ol' cnt' running' queue',
+     In (p, Next x) (mc_spec mapper mc ol' cnt' running' queue' (S pos) rest) ->
+     exists j now0, nth_error ((now, i) :: rest) (p - pos) = Some (now0, ISrc (S j) (Next x)) /\ (pos <= p)%nat).
+  { intros ol' cnt' running' queue' H. destruct (IH _ _ _ _ _ _ _ H) as (j & n0 & Hn & Hle).
+    exists j, n0. split; [|lia]. replace (p - pos)%nat with (S (p - S pos)) by lia. exact Hn. }
+  destruct i as [k e|tag|].
+  - destruct k as [|j].
+    + destruct ol; [|eapply Shift; eassumption].
+      destruct e as [y|e|].
+      * destruct (mapper y cnt); [|destruct Hin as [E|[]]; discriminate].
+        destruct (Nat.ltb (length running) mc); eapply Shift; eassumption.
+      * destruct Hin as [E|[]]. discriminate.
+      * destruct running; [destruct Hin as [E|[]]; discriminate|]. eapply Shift; eassumption.
+    + destruct (mem (S j) running); [|eapply Shift; eassumption].
+      destruct e as [y|e|].
+      * destruct Hin as [E|Hin].
+        -- injection E as <- <-. exists j, now. rewrite Nat.sub_diag. split; [reflexivity|lia].
+        -- eapply Shift; eassumption.
+      * destruct Hin as [E|[]]. discriminate.
+      * destruct queue as [|q qs]; [|eapply Shift; eassumption].
+        destruct (remove (S j) running); [destruct ol; [eapply Shift; eassumption|destruct Hin as [E|[]]; discriminate]|].
+        eapply Shift; eassumption.
+  - eapply Shift; eassumption.
+  - destruct Hin.
+Qed.
+
+Lemma flat_map_spec_sound mapper (ins : list (Z * inp A)) : forall ol cnt running pos p x,
+  In (p, Next x) (flat_map_spec mapper ol cnt running pos ins) ->
+  exists j now, nth_error ins (p - pos) = Some (now, ISrc (S j) (Next x)) /\ (pos <= p)%nat.
+Proof.
+  induction ins as [|[now i] rest IH]; intros ol cnt running pos p x Hin; [destruct Hin|].
+  cbn [flat_map_spec] in Hin.
+  assert (Shift : forall ol' cnt' running',
+     In (p, Next x) (flat_map_spec mapper ol' cnt' running' (S pos) rest) ->
+     exists j now0, nth_error ((now, i) :: rest) (p - pos) = Some (now0, ISrc (S j) (Next x)) /\ (pos <= p)%nat).
+  { intros ol' cnt' running' H. destruct (IH _ _ _ _ _ _ H) as (j & n0 & Hn & Hle).
+    exists j, n0. split; [|lia]. replace (p - pos)%nat with (S (p - S pos)) by lia. exact Hn. }
+  destruct i as [k e|tag|].
+  - destruct k as [|j].
+    + destruct ol; [|eapply Shift; eassumption].
+      destruct e as [y|e|].
+      * destruct (mapper y cnt); [eapply Shift; eassumption|destruct Hin as [E|[]]; discriminate].
+      * destruct Hin as [E|[]]. discriminate.
+      * destruct running; [destruct Hin as [E|[]]; discriminate|]. eapply Shift; eassumption.
+    + destruct (mem (S j) running); [|eapply Shift; eassumption].
+      destruct e as [y|e|].
+      * destruct Hin as [E|Hin].
+        -- injection E as <- <-. exists j, now. rewrite Nat.sub_diag. split; [reflexivity|lia].
+        -- eapply Shift; eassumption.
+      * destruct Hin as [E|[]]. discriminate.
+      * destruct (remove (S j) running); [destruct ol; [eapply Shift; eassumption|destruct Hin as [E|[]]; discriminate]|].
+        eapply Shift; eassumption.
+  - eapply Shift; eassumption.
+  - destruct Hin.
+Qed.
+End SpecFacts.
